@@ -83,6 +83,10 @@ type tgen struct {
 	t       *rapid.T
 	counter int
 	avoid   map[string]bool
+	// exportedTwins: two exported fields of one struct may differ only in the case of their Go names (both
+	// carry explicit, different tags). Not for types that are also read under a tag name no field has,
+	// where both would read the same lower-cased name.
+	exportedTwins bool
 }
 
 func avoided() map[string]bool {
@@ -198,9 +202,173 @@ func (g *tgen) structT(depth int) *gen.TD {
 		if !f.Ignore && !f.Unexp && rapid.IntRange(0, 3).Draw(g.t, "haspol") == 0 {
 			f.Policy = rapid.SampledFrom(tagPolicies).Draw(g.t, "fpol")
 		}
+		g.goName(st, &f, i)
 		st.Fields = append(st.Fields, f)
 	}
 	return st
+}
+
+// Go field names. Whether Unpack may touch a field is decided by its Go name
+// (exported or not), and the name under which an untagged field is read is
+// derived from it, so the names are part of "for all struct types".
+var (
+	// Upper-case letters outside ASCII that an exported identifier may start with: encodings of 2, 3 and 4
+	// bytes; letters whose lower case is an ASCII letter (Kelvin sign, dotted capital I), is shorter, or is
+	// the letter itself (mathematical bold A); a digraph with a separate title case.
+	upperStarts = []string{"Ä", "É", "Δ", "Ж", "Ω", "Ö", "\u212a", "İ", "ẞ", "Ａ", "𝐀", "Ⴀ", "Ǆ", "Σ"}
+	// First characters of identifiers that are NOT exported although they are no ASCII lower-case letters:
+	// lower-case and caseless letters outside ASCII, title case, the underscore (also before an upper-case letter).
+	lowerStarts = []string{"ä", "δ", "ж", "_", "世", "ǅ", "ß", "ａ", "ª", "_A", "ǆ", "é"}
+	longNames   = []int{30, 70, 150, 300}
+)
+
+// goName varies the Go name of the field f (the i-th of st, not yet appended).
+// Half of the fields keep the plain names F<i> / f<i> / G<i>x<n>. The digits
+// that follow the first letter are kept, so names stay unique within the
+// struct and the lower-cased names of untagged fields unique over the type.
+func (g *tgen) goName(st *gen.TD, f *gen.FD, i int) {
+	k := rapid.IntRange(0, 15).Draw(g.t, "goname")
+	if k < 8 {
+		return
+	}
+	plain := f.Name
+	rest := f.Name[1:]
+	untagged := f.Tag == "" && !f.Inline
+	twin := func() {
+		// the nearest earlier sibling that is exported and does not get its configuration name from its Go name
+		for j := i - 1; j >= 0; j-- {
+			p := &st.Fields[j]
+			if p.Unexp || (p.Tag == "" && !p.Inline) {
+				continue
+			}
+			switch {
+			case f.Unexp:
+				f.Name = fmt.Sprintf(rapid.SampledFrom([]string{"tw%d", "tW%d"}).Draw(g.t, "twincase"), j)
+			case g.exportedTwins && !untagged:
+				f.Name = fmt.Sprintf("TW%d", j)
+			default:
+				return
+			}
+			for n := range st.Fields {
+				if n != j && strings.EqualFold(st.Fields[n].Name, f.Name) {
+					f.Name = plain // one twin per sibling
+					return
+				}
+			}
+			p.Name = fmt.Sprintf("Tw%d", j)
+			return
+		}
+	}
+	long := func(first string) string {
+		return first + strings.Repeat("o", rapid.SampledFrom(longNames).Draw(g.t, "namelen")) + rest
+	}
+	switch {
+	case f.Unexp:
+		switch {
+		case k <= 11:
+			f.Name = rapid.SampledFrom(lowerStarts).Draw(g.t, "lowerstart") + rest
+		case k == 12:
+			f.Name = long("f")
+		case k <= 14:
+			twin()
+		default:
+			f.Name = "fÄß" + rest
+		}
+	default:
+		switch {
+		case k <= 10:
+			f.Name = rapid.SampledFrom(upperStarts).Draw(g.t, "upperstart") + rest
+		case k == 11:
+			f.Name = plain[:1] + "äÖß" + rest // letters outside ASCII behind an ASCII first letter
+		case k == 12:
+			f.Name = long(plain[:1])
+		case k == 13:
+			twin()
+		case untagged || f.Inline:
+			f.Name = rapid.SampledFrom(upperStarts).Draw(g.t, "upperstart") + "Ü" + rest
+		default:
+			// the configuration name the tag gives is the Go name itself, or differs from it only in case
+			// (upper-cased; lower-cased, which is what no tag at all would give)
+			f.Name = fmt.Sprintf("H%dx%d", i, g.next())
+			switch rapid.IntRange(0, 2).Draw(g.t, "tageqname") {
+			case 0:
+				f.Tag = f.Name
+			case 1:
+				f.Tag = strings.ToUpper(f.Name)
+			default:
+				f.Tag = strings.ToLower(f.Name)
+			}
+		}
+	}
+	for n := range st.Fields {
+		if st.Fields[n].Name == f.Name {
+			f.Name = plain
+		}
+	}
+}
+
+// nameFeatures records what the Go field names of the type are like, for the class histogram.
+func nameFeatures(t *gen.TD, seen map[string]bool) {
+	if strings.HasPrefix(t.Kind, "cat:") {
+		return
+	}
+	if t.Elem != nil {
+		nameFeatures(t.Elem, seen)
+	}
+	for i := range t.Fields {
+		f := &t.Fields[i]
+		untagged := f.Tag == "" && !f.Inline
+		switch {
+		case f.Unexp && (f.Name[0] >= 0x80 || f.Name[0] == '_'):
+			seen["names: unexported field whose name starts with a letter outside ASCII or an underscore"] = true
+		case !f.Unexp && f.Name[0] >= 0x80:
+			seen["names: exported field whose name starts with an upper-case letter outside ASCII"] = true
+			if untagged {
+				seen["names: such a field without tag (read under its lower-cased name)"] = true
+			}
+			if f.Inline {
+				seen["names: such a field is an inline struct"] = true
+			}
+		}
+		if len(f.Name) > 30 {
+			seen["names: a name longer than 30 bytes"] = true
+		}
+		if low := strings.ToLower(f.Name); untagged && !f.Unexp && len(low) != len(f.Name) {
+			seen["names: untagged field whose lower-cased name has another length in bytes"] = true
+		}
+		if untagged && !f.Unexp && f.Name[0] < 0x80 && !isASCII(f.Name) {
+			seen["names: untagged field with letters outside ASCII behind an ASCII first letter"] = true
+		}
+		if f.Tag != "" && !f.Unexp {
+			switch {
+			case f.Tag == f.Name:
+				seen["names: tag equal to the Go name"] = true
+			case f.Tag == strings.ToLower(f.Name):
+				seen["names: tag equal to the lower-cased Go name"] = true
+			case strings.EqualFold(f.Tag, f.Name):
+				seen["names: tag differs from the Go name only in case"] = true
+			}
+		}
+		for j := 0; j < i; j++ {
+			if o := &t.Fields[j]; strings.EqualFold(o.Name, f.Name) {
+				if o.Unexp || f.Unexp {
+					seen["names: an exported and an unexported field differ only in case"] = true
+				} else {
+					seen["names: two exported fields differ only in case"] = true
+				}
+			}
+		}
+		nameFeatures(f.T, seen)
+	}
+}
+
+func isASCII(s string) bool {
+	for i := 0; i < len(s); i++ {
+		if s[i] >= 0x80 {
+			return false
+		}
+	}
+	return true
 }
 
 // ---------------------------------------------------------------------------
@@ -337,10 +505,10 @@ func (g *cgen) setting(t *gen.TD, tv *gen.TV, gp string, others []*gen.TD) *gen.
 
 // object fills the configuration object o a struct is unpacked from.
 func (g *cgen) object(o *gen.Tree, sh *gen.TD, tv *gen.TV, gp string, others []*gen.TD) {
-	g.fill(o, sh, tv, gp, others)
+	ns := map[string]bool{}
+	namespace(sh, g.sep, ns)
+	g.fill(o, sh, tv, gp, others, ns)
 	if g.foreignOn {
-		ns := map[string]bool{}
-		namespace(sh, g.sep, ns)
 		g.foreign(o, sh, tv, ns, others)
 	}
 }
@@ -355,8 +523,12 @@ func fieldOthers(others []*gen.TD, i int) []*gen.TD {
 	return out
 }
 
-// fill mentions a random subset of the struct's fields in o.
-func (g *cgen) fill(o *gen.Tree, sh *gen.TD, tv *gen.TV, gp string, others []*gen.TD) {
+// fill mentions a random subset of the struct's fields in o. ns holds the keys
+// of o that the struct (with its inline structs) reads: a setting under the
+// name of a skipped field is only written where no field reads that key (an
+// unexported field whose name differs from an exported one only in case has
+// that field's name when no tag names them).
+func (g *cgen) fill(o *gen.Tree, sh *gen.TD, tv *gen.TV, gp string, others []*gen.TD, ns map[string]bool) {
 	for i := range sh.Fields {
 		f := &sh.Fields[i]
 		var ftv *gen.TV
@@ -368,7 +540,7 @@ func (g *cgen) fill(o *gen.Tree, sh *gen.TD, tv *gen.TV, gp string, others []*ge
 			fgp = gp + "." + f.Name
 		}
 		if f.Inline {
-			g.fill(o, f.T.Shape(), ftv, fgp, fieldOthers(others, i))
+			g.fill(o, f.T.Shape(), ftv, fgp, fieldOthers(others, i), ns)
 			continue
 		}
 		if g.noMention[fgp] {
@@ -378,7 +550,7 @@ func (g *cgen) fill(o *gen.Tree, sh *gen.TD, tv *gen.TV, gp string, others []*ge
 		switch {
 		case f.Ignore || f.Unexp:
 			// a setting under the name of a field Unpack must skip
-			if r < 35 {
+			if r < 35 && !ns[firstSegment(f.ConfigName(), g.sep)] {
 				putAt(o, f.ConfigName(), g.sep, g.setting(f.T, ftv, fgp, fieldOthers(others, i)))
 			}
 		case r < 70:
@@ -728,7 +900,7 @@ func maxOf2(t *rapid.T, n int) int {
 }
 
 func genCase(t *rapid.T) Case {
-	tg := &tgen{t: t, avoid: avoided()}
+	tg := &tgen{t: t, avoid: avoided(), exportedTwins: true}
 	var c Case
 	if rapid.IntRange(0, 7).Draw(t, "cattop") == 0 {
 		// the target itself is a catalogue struct (InitDefaults and Validate of the struct passed in)
